@@ -1,47 +1,114 @@
 import FxVerif.Model.C16
+import FxVerif.Model.C16Sem
+import FxVerif.Model.C16Store
 import FxVerif.Model.Util
-/-! line-protocol driver for the C16 model: `lake env lean --run Driver/C16.lean < ops.txt` -/
-open FxVerif FxVerif.Util FxVerif.Gen.C16 FxVerif.Model.C16
+/-! line-protocol driver for the C16 model: `lake env lean --run Driver/C16.lean < ops.txt`
+
+ops:
+* `cfg <prefix-hex> <minLen> <maxLen>`            address configuration of the running app
+* `spaces <name>…`                                  the store spaces the gov keeper knows
+* `bech <str-hex>`                                  `sdk.AccAddressFromBech32`       → `ok:<bytes-hex>` | `err`
+* `fold <a-hex> <b-hex>`                            `strings.EqualFold`             → `true` | `false`
+* `call <msg> <gov-hex> <auth-hex> <payloadOk> <chain>`   one routed message → the stage it ends in
+* `casreset`                                        empty scratch stores
+* `cas <gov-hex> <auth-hex> <space:key:old:new>…`   one MsgUpdateStore through its branch
+* `prop <gov-hex> m <auth-hex> <entry>… m …`        a passed proposal with several MsgUpdateStore messages
+-/
+open FxVerif FxVerif.Util FxVerif.Gen FxVerif.Model.C16
 
 structure St where
-  kv : KV := []
+  cfg : AddrCfg := ⟨strOf "cosmos", 1, 255⟩
+  spaces : List String := []
+  stores : Stores := []
 
-def routerEntry (msg : String) : Option Handler :=
-  -- the registered service: the crosschain router forwarder if there is one, else the only handler
-  match handlers.find? (fun h => h.msg == msg && (match h.shape with | .forward _ => true | _ => false)) with
-  | some h => some h
-  | none => handlers.find? (fun h => h.msg == msg)
+def toStr (s : String) : Str := s.toList.map Char.toNat
 
-def parseUpd (w : String) : Option Upd :=
+def unhexS (w : String) : Option Str := (unhexStr w).map toStr
+
+def mkEnv (cfg : AddrCfg) (gov : Str) : Env :=
+  { cfg := cfg, gov := gov, modAddr := fun _ => [], field := fun _ => [], otherS := fun _ => [],
+    otherB := fun _ => false, callB := fun _ => false, otherH := fun _ => none }
+
+/-- anything after a guard "takes effect": the work changes the state and reports success -/
+def world (routeOk : Bool) : World Nat :=
+  { work := fun _ _ _ s => .ret .ok (s + 1), routeOk := routeOk, pick := 0, unknown := fun s => (.ok, s + 1) }
+
+def parseEntry (w : String) : Option Entry :=
   match w.splitOn ":" with
   | [sp, k, o, n] =>
     match unhex k, unhex o, unhex n with
-    | some k, some o, some n => some ⟨sp == "1", k, o, n⟩
+    | some k, some o, some n => some ⟨sp, k, o, n⟩
     | _, _, _ => none
   | _ => none
 
-def showKV (s : KV) : String :=
-  let sorted := s.mergeSort (fun a b => bytesLe a.1 b.1)
-  ",".intercalate (sorted.map fun p => (hex p.1) ++ "=" ++ hex p.2)
+def skLe (a b : SKey × Bytes) : Bool :=
+  if a.1.1 < b.1.1 then true else if b.1.1 < a.1.1 then false else bytesLe a.1.2 b.1.2
+
+def showStores (s : Stores) : String :=
+  let sorted := s.mergeSort skLe
+  let body := ",".intercalate (sorted.map fun p => p.1.1 ++ "/" ++ hex p.1.2 ++ "=" ++ hex p.2)
+  if body.isEmpty then "-" else body
+
+/-- one MsgUpdateStore as the router runs it: ValidateBasic's authority decoding, then the handler on a branch -/
+def updMsg (st : St) (gov auth : Str) (es : List Entry) : Stores → Res × Stores := fun S =>
+  if vbDecodes C16Sem.msgInfos "x/gov/types.MsgUpdateStore" && (accAddress st.cfg auth).isNone then (.err, S)
+  else updateStoreHandler st.spaces gov auth es S
+
+/-- split `m <auth> e… m <auth> e…` into messages -/
+partial def parseMsgs (ws : List String) : Option (List (Str × List Entry)) :=
+  match ws with
+  | [] => some []
+  | "m" :: a :: rest =>
+    let es := rest.takeWhile (· != "m")
+    let tail := rest.dropWhile (· != "m")
+    match unhexS a, es.mapM parseEntry, parseMsgs tail with
+    | some a, some es, some ms => some ((a, es) :: ms)
+    | _, _, _ => none
+  | _ => none
 
 def step (st : St) (line : String) : St × String :=
   match words line with
-  | "reset" :: _ => ({}, "ok")
-  | ["casreset"] => ({ st with kv := [] }, "ok")
-  | ["call", msg, govH, authH, vb, route] =>
-    match routerEntry msg, unhexStr govH, unhexStr authH with
-    | some h, some gov, some auth =>
-      if vb == "0" then (st, "rejected") else
-      let r := run (σ := Nat) handlers h.shape gov.toList auth.toList (route == "1") (fun s => (.ok, s + 1)) 0
-      (st, if r == (Res.err, 0) then "rejected" else "past-guard")
+  | "reset" :: _ => ({ st with stores := [] }, "ok")
+  | ["cfg", p, lo, hi] =>
+    match unhexS p with
+    | some p => ({ st with cfg := ⟨p, lo.toNat!, hi.toNat!⟩ }, "ok")
+    | none => (st, "bad-op")
+  | "spaces" :: names => ({ st with spaces := names }, "ok")
+  | ["casreset"] => ({ st with stores := [] }, "ok")
+  | ["bech", h] =>
+    match unhexS h with
+    | some s => (st, match accAddress st.cfg s with | some bz => "ok:" ++ hex bz | none => "err")
+    | none => (st, "bad-op")
+  | ["fold", a, b] =>
+    match unhexS a, unhexS b with
+    | some a, some b => (st, toString (foldEq a b))
+    | _, _ => (st, "bad-op")
+  | ["call", msg, govH, authH, pOk, chain] =>
+    match routeOf C16Sem.services C16Sem.registrations msg, unhexS govH, unhexS authH with
+    | some (T, m), some gov, some auth =>
+      let r := routedStage prog C16Sem.msgInfos (mkEnv st.cfg gov) auth (world (C16Sem.routes.contains chain)) (pOk == "1") T m msg 0
+      (st, match r with
+        | (.authorityFormat, _) => "rejected:authority-format"
+        | (.payload, _) => "rejected:payload"
+        | (.handler, (.err, 0)) => "rejected:signer"
+        | (.handler, _) => "past-guard")
     | none, _, _ => (st, "unknown-message")
     | _, _, _ => (st, "bad-op")
-  | "cas" :: authOk :: ups =>
-    match ups.mapM parseUpd with
-    | some us =>
-      let (r, kv') := updateStore ['g'] (if authOk == "1" then ['g'] else ['x']) us st.kv
-      ({ st with kv := kv' }, (if r == .ok then "ok" else "err") ++ " " ++ showKV kv')
-    | none => (st, "bad-op")
+  | "cas" :: govH :: authH :: ups =>
+    match unhexS govH, unhexS authH, ups.mapM parseEntry with
+    | some gov, some auth, some es =>
+      let (r, ctx) := updMsg st gov auth es st.stores
+      match r with
+      | .ok => ({ st with stores := ctx }, "ok " ++ showStores ctx)
+      | .err => (st, "err " ++ showStores st.stores ++ " ctx=" ++ showStores ctx)
+    | _, _, _ => (st, "bad-op")
+  | "prop" :: govH :: ws =>
+    match unhexS govH, parseMsgs ws with
+    | some gov, some ms =>
+      let fs := ms.map fun (a, es) => updMsg st gov a es
+      let (r, S') := runProposalWith C16Sem.proposalExec fs st.stores
+      ({ st with stores := S' }, (if r == .ok then "passed " else "failed ") ++ showStores S')
+    | _, _ => (st, "bad-op")
   | _ => (st, "bad-op")
 
 def main : IO Unit := runDriver step ({} : St)
